@@ -270,6 +270,32 @@ def run(ctx):
                         'text': t1[:3000], 'with_comments': r1, 'comments_blanked': r2, 'comments_removed': r3})
             elif (r1[0], r2[0], r3[0]) != (r1[0],) * 3:
                 ctx.violation('acceptance depends on comments', {'text': t1[:3000], 'r': [r1[0], r2[0], r3[0]]})
+            # the same tokens on the same lines with other horizontal white-space (tabs for blanks, wider blanks): same line reported
+            def ws_variant(f):
+                # (white-space between the words of a multi-word keyword is left alone: recorded finding C14-multiword-keyword-layout)
+                out = []
+                for idx, (k, l) in enumerate(broken):
+                    if k == 'ws':
+                        pw = broken[idx - 1][1] if idx > 0 else ''
+                        nw = broken[idx + 1][1] if idx + 1 < len(broken) else ''
+                        if any((pw + ' ' + nw) == kw or kw.startswith(pw + ' ' + nw + ' ') or kw.endswith(' ' + pw + ' ' + nw) for kw in MULTIWORD):
+                            out.append(l)
+                        else:
+                            out.append(f(l))
+                    else:
+                        out.append(l)
+                return ''.join(out)
+            t4 = ws_variant(lambda l: l.replace(' ', '\t'))
+            t5 = ws_variant(lambda l: l.replace(' ', '   ').replace('\t', ' \t'))
+            for label, tv in (('tabs for blanks', t4), ('wider blanks', t5)):
+                rv = parse_outcome(tv)
+                ctx.case(('errline-ws', tv))
+                if r1[0] == 'ParseError' and rv[0] == 'ParseError' and isinstance(r1[1], tuple) and isinstance(rv[1], tuple):
+                    if r1[1][0] != rv[1][0]:
+                        ctx.violation('syntax error line depends on the horizontal white-space between the items (%s)' % label,
+                                      {'text': t1[:3000], 'variant': tv[:3000], 'reported': r1, 'variant_reported': rv})
+                elif rv[0] != r1[0]:
+                    ctx.violation('acceptance depends on the horizontal white-space between the items (%s)' % label, {'text': t1[:3000], 'variant': tv[:3000], 'r': [r1[0], rv[0]]})
     # ---------------- (d) parse_files == parse_string: files ending without a new-line, ending in a comment, several files
     import tempfile
     import shutil
